@@ -27,6 +27,11 @@ def conditions(tier: str) -> list[core.Cond]:
                             continue
                         conds.append(core.Cond(f"history {hist} buffer={buf} placement={late}", HARNESS, "check",
                                                {"history": hist, "buf": buf, "batch": 2, "late": late}, tmo))
+    # another batch size: a batch that mixes an already stored span with spans of a trace that an earlier run removed
+    for first in ([1, 0], [1, 1]):
+        for second in ([1, 0], [1, 1]):
+            conds.append(core.Cond(f"history {[first, second]} buffer=1 placement=2 batch=3", HARNESS, "check",
+                                   {"history": [first, second], "buf": 1, "batch": 3, "late": 2}, tmo))
     # a run whose lazy output is never read (the otel2pv command without --save-events), followed by ordinary runs
     for first in ([1, 1, 0], [1, 0, 0]):
         for second in runs:
